@@ -589,8 +589,40 @@ func FactsAt(root ast.Node, target ast.Node) []ast.Expr {
 			if ast.Node(st) == inner {
 				break
 			}
-			if is, ok := st.(*ast.IfStmt); ok && is.Else == nil && stmtsLeave(is.Body.List) {
-				facts = append(facts, Conjuncts(is.Cond, true)...)
+			switch g := st.(type) {
+			case *ast.IfStmt:
+				// if A { leave } [else if B { leave }]…: every test of the leaving prefix of the
+				// chain failed (a later branch that does not leave says nothing about its own test,
+				// but was only reached because the earlier ones failed)
+				for is := g; is != nil; {
+					if !stmtsLeave(is.Body.List) {
+						break
+					}
+					facts = append(facts, Conjuncts(is.Cond, true)...)
+					next, _ := is.Else.(*ast.IfStmt)
+					is = next
+				}
+			case *ast.SwitchStmt:
+				// the same written as a tagless switch: the tests of the leaving clauses that
+				// precede the first clause that does not leave all failed
+				if g.Tag != nil {
+					break
+				}
+				for _, c := range g.Body.List {
+					cc := c.(*ast.CaseClause)
+					if cc.List == nil {
+						continue
+					}
+					if !stmtsLeave(cc.Body) {
+						break
+					}
+					if br, ok := cc.Body[len(cc.Body)-1].(*ast.BranchStmt); ok && br.Tok == token.BREAK && br.Label == nil {
+						break // leaves the switch only
+					}
+					for _, e := range cc.List {
+						facts = append(facts, Conjuncts(e, true)...)
+					}
+				}
 			}
 		}
 	}
